@@ -72,7 +72,13 @@ CustomOutcomes == {"absent", "value", "empty", "error"}   \* absent = no custom 
 
 Scenario(fam, proto, kind, probe, ph, host, custom, ua, probeText, method, path, lines) ==
   [fam |-> fam, proto |-> proto, kind |-> kind, probe |-> probe, preserveHost |-> ph, host |-> host,
-   custom |-> custom, ua |-> ua, probeText |-> probeText, method |-> method, path |-> path, lines |-> lines]
+   custom |-> custom, ua |-> ua, probeText |-> probeText, method |-> method, path |-> path, lines |-> lines,
+   scheme |-> "https",      \* HTTP/2 only: the :scheme pseudo-header the client chose (the connection is TLS whatever it says)
+   prefix |-> "",           \* path of the configured forward URL (a backend mounted under a prefix)
+   wantTarget |-> path]     \* request-target the backend must see: forward prefix, then the client's target octet for octet
+
+\* forward URLs with a path: plain, and with an escape of its own that must survive as configured
+Prefixes == {"/api", "/v1%2Fbeta"}
 
 Scenarios ==
   \* C05: client-supplied fingerprint headers against every injector outcome
@@ -83,6 +89,10 @@ Scenarios ==
   { Scenario("fwd", p, "normal", TRUE, ph, h, "absent", <<"curl/8">>, FALSE, "GET", "/a", ls) :
       p \in Protos, ph \in BOOLEAN, h \in {"vf.test", "other.example:8443"}, ls \in SubSeqs(FwdLines, MaxLines) }
   \cup
+  \* C09: an HTTP/2 client may write ":scheme: http" on its TLS connection; the connection is TLS all the same
+  { [Scenario("fwd", "h2", "normal", TRUE, ph, "vf.test", "absent", <<"curl/8">>, FALSE, "GET", "/a", ls) EXCEPT !.scheme = "http"] :
+      ph \in BOOLEAN, ls \in SubSeqs(FwdLines, 1) }
+  \cup
   \* C15: probe predicate
   { Scenario("probe", p, "normal", pr, FALSE, "vf.test", "absent", ua, pt, m, pa, <<>>) :
       p \in Protos, pr \in BOOLEAN, ua \in UAs, pt \in BOOLEAN, m \in {"GET", "POST"}, pa \in {"/healthz", "/a?x=kube-probe/1"} }
@@ -90,6 +100,10 @@ Scenarios ==
   \* C08 request-target clause: method, path and query are opaque to the proxy and must arrive as sent
   { Scenario("target", p, "normal", FALSE, FALSE, "vf.test", "absent", <<"curl/8">>, FALSE, m, pa, <<>>) :
       p \in Protos, m \in {"GET", "POST", "DELETE", "OPTIONS", "PATCH"}, pa \in Targets }
+  \cup
+  \* ... also behind a forward URL that has a path of its own
+  { [Scenario("target", p, "normal", FALSE, FALSE, "vf.test", "absent", <<"curl/8">>, FALSE, "GET", pa, <<>>) EXCEPT !.prefix = pf, !.wantTarget = pf \o pa] :
+      p \in Protos, pf \in Prefixes, pa \in Targets }
   \cup
   \* C08 header clause: end-to-end headers kept, hop-by-hop removed, Host
   { Scenario("keep", p, "normal", FALSE, ph, "vf.test", "absent", <<"curl/8">>, FALSE, "GET", "/a", ls) :
